@@ -1,6 +1,7 @@
 import TsVerif.C10.Judge
 import TsVerif.C10.Move
 import TsVerif.C10.Marks
+import TsVerif.C10.Points
 import TsVerif.Common.LengthAlgebra
 /-!
 # C10 — Editing a tree keeps every untouched node in sync with the new text
@@ -36,8 +37,16 @@ start).  * touched (incl. via look-ahead) ⇒ has_changes, for every node incl. 
   for the newline-counting text model ........ `TsVerif.point_add_assoc`, `point_sub_add_cancel`,
   `length_sub_add_cancel`, `extent_append`, `lengthOf_sub_prefix` (Common/LengthAlgebra.lean)
 
-OPEN (judged on every real edited tree, not yet proved for the model): the row/column
-dimension of kept/shifted at tree level.
+* row/column dimension at tree level (Text.lean, Points.lean): a tree consistent with the old text
+  (`Cons T t 0`: every stored padding/size is the newline-counted extent of the bytes it covers) is,
+  after `editTree` with an edit whose points are the row/column of its bytes (`EditOK`), consistent
+  with the new text ................................................ `edit_consistent`
+  … for every finite history of such edits ......................... `edits_consistent`
+  positions obtained by adding relative lengths down from the root are the text's ... `cons_points`
+  kept ⇒ same start/end *points*; shifted ⇒ new bytes φ(old), same characters, and start/end
+  row/column = `extent (T'.take byte)` in the new text ............... `edit_kept_shifted_points`
+  the hypotheses `Cons` / `EditOK` are decided on every real case by `consCheck` / `editOKCheck`
+  ................................................ `consCheck_sound`, `editOKCheck_sound`
 -/
 namespace TsVerif.C10
 open TsGen TsVerif
@@ -277,5 +286,132 @@ mutual
       obtain ⟨⟨h1, h2⟩, h3⟩ := h
       exact LaOKL.cons c rest l B (laokCheck_sound c h1) h2 (laokCheckL_sound rest _ B h3)
 end
+
+end TsVerif.C10
+
+/-! ## Row/column dimension (Text.lean, Points.lean): the edited tree is consistent with the new text
+
+`Cons T t A` — every node of `t` (frame at absolute byte `A`) stores exactly the padding/size
+`Length`s (bytes, rows, columns) obtained by counting newlines in the bytes of `T` it covers, and
+children sit at consecutive frames.  `EditOK T ins S O e` — `e` is the change "replace `[S, O)` of
+`T` by `ins`" with the correct row/column for its three positions. -/
+namespace TsVerif.C10
+open TsGen TsVerif
+
+/-- **the edit keeps the tree consistent with the text** — for every tree that tiles in bytes and
+is consistent with the old text, and every edit that describes a text change correctly, every node
+of the edited tree stores the row/column extents of the bytes it covers in the NEW text. -/
+theorem edit_consistent (t : Tree) (e : Edit) (T ins : List Nat) (S O : Nat)
+    (hw : WFb t) (hc : Cons T t 0) (he : EditOK T ins S O e) :
+    Cons (splice T ins S O) (editTree t e) 0 :=
+  editTree_cons t e T (splice T ins S O) S O (S + ins.length) 0 0 (Chg.of_splice T ins S O he.so he.ot) hw hc
+    ⟨he.start, he.old_end, he.new_end, Or.inl ⟨Nat.zero_le _, rfl⟩⟩
+
+/-- **all finite edit histories** (no re-parse in between): tiling and consistency with the
+current text are invariants. -/
+theorem edits_consistent (xs : List TextEdit) (T : List Nat) (t : Tree)
+    (hw : WFb t) (hc : Cons T t 0) (hx : HistOK T xs) :
+    WFb (xs.foldl applyEdit t) ∧ Cons (xs.foldl applyText T) (xs.foldl applyEdit t) 0 := by
+  induction xs generalizing T t with
+  | nil => exact ⟨hw, hc⟩
+  | cons x xs ih =>
+    simp only [List.foldl_cons]
+    simp only [HistOK] at hx
+    exact ih (applyText T x) (applyEdit t x) (editTree_bytes t x.e hw hx.1.editB).1
+      (edit_consistent t x.e T x.ins x.S x.O hw hc hx.1) hx.2
+
+/-- **positions computed by the runtime are the text's** — in a consistent tree, the absolute start
+and end of every node, obtained by `length_add`-ing relative lengths down from the root (as
+`ts_node_start_point` / the tree cursor do), have the row/column of that byte offset in the text. -/
+theorem cons_points (t : Tree) (T : List Nat) (hc : Cons T t 0) :
+    ∀ p ∈ pts t length_zero,
+      p.1 = lengthOf (T.take p.1.bytes) ∧ p.2 = lengthOf (T.take p.2.bytes) ∧
+      p.1.bytes ≤ p.2.bytes ∧ p.2.bytes ≤ T.length := by
+  intro p hp
+  obtain ⟨⟨h1, _⟩, ⟨h2, h2'⟩, h3⟩ := pts_cons t T 0 length_zero hc (lenS_zero T 0 0 (Nat.le_refl _)).symm p hp
+  rw [lenS_zero_eq_take] at h1 h2
+  exact ⟨h1, h2, h3, h2'⟩
+
+/-- **kept / shifted with row/column** — pairing nodes before/after in preorder: a node that ends
+before the change keeps its start and end *positions* (bytes, row, column); a node that starts at or
+after the old end has new bytes φ(old bytes), covers the same characters in the new text, and its
+new start/end row/column are those of its new bytes in the new text. -/
+theorem edit_kept_shifted_points (t : Tree) (e : Edit) (T ins : List Nat) (S O : Nat)
+    (hw : WFb t) (hc : Cons T t 0) (he : EditOK T ins S O e) :
+    All2 (RelP T (splice T ins S O) S O (S + ins.length))
+      (pts t length_zero) (pts (editTree t e) length_zero) := by
+  have hc' := edit_consistent t e T ins S O hw hc he
+  have hchg := Chg.of_splice T ins S O he.so he.ot
+  obtain ⟨b1, b2, b3⟩ := he.bytes
+  have hm := editTree_moves t e hw he.editB
+  rw [b1, b2, b3] at hm
+  have z0 : (length_zero).bytes = 0 := length_zero_bytes
+  rw [← z0, ← pts_bytes t length_zero, ← pts_bytes (editTree t e) length_zero] at hm
+  have hz : length_zero = lenS T 0 0 := (lenS_zero T 0 0 (Nat.le_refl _)).symm
+  have hz' : length_zero = lenS (splice T ins S O) 0 0 := (lenS_zero _ 0 0 (Nat.le_refl _)).symm
+  refine (All2.of_map bytesOf bytesOf _ _ hm).mono2 ?_
+  intro p q hp hq hrel
+  obtain ⟨⟨p1, _⟩, ⟨p2, _⟩, p3⟩ := pts_cons t T 0 length_zero hc hz p hp
+  obtain ⟨⟨q1, _⟩, ⟨q2, _⟩, _⟩ := pts_cons _ _ 0 length_zero hc' hz' q hq
+  obtain ⟨r1, r2⟩ := hrel
+  simp only [bytesOf] at r1 r2
+  constructor
+  · intro hk
+    have h := r1 hk
+    simp only [Prod.mk.injEq] at h
+    have e1 : q.1 = p.1 := by
+      rw [q1, p1, h.1]; exact hchg.below 0 _ (by omega)
+    have e2 : q.2 = p.2 := by
+      rw [q2, p2, h.2]; exact hchg.below 0 _ (by omega)
+    exact Prod.ext e1 e2
+  · intro hs
+    have h := r2 hs
+    simp only [Prod.mk.injEq] at h
+    refine ⟨h.1, h.2, ?_, ?_, ?_⟩
+    · exact (congrArg Length.extent q1).trans (by rw [lenS_zero_eq_take]; rfl)
+    · exact (congrArg Length.extent q2).trans (by rw [lenS_zero_eq_take]; rfl)
+    · rw [h.1, h.2, slice_splice_above T ins S O _ _ he.so he.ot]
+      congr 1 <;> omega
+
+/-- The Boolean check the driver runs on every real tree (with the real text) implies `Cons`. -/
+theorem consCheck_sound (T : List Nat) (t : Tree) (A : Nat) (h : consCheck T t A = true) : Cons T t A := by
+  simp only [consCheck, Bool.and_eq_true, decide_eq_true_eq] at h
+  exact consCheckAt_sound t T A h.1 h.2
+
+/-- The Boolean check of the edit (old text, new text, edit) implies `EditOK` for the inserted
+bytes read off the new text, and that the new text is the splice. -/
+theorem editOKCheck_sound (T T2 : List Nat) (e : Edit) (h : editOKCheck T T2 e = true) :
+    EditOK T ((T2.drop e.start.bytes).take (e.new_end.bytes - e.start.bytes)) e.start.bytes e.old_end.bytes e ∧
+    splice T ((T2.drop e.start.bytes).take (e.new_end.bytes - e.start.bytes)) e.start.bytes e.old_end.bytes = T2 := by
+  simp only [editOKCheck, Bool.and_eq_true, decide_eq_true_eq] at h
+  obtain ⟨⟨⟨⟨⟨⟨⟨h1, h2⟩, h3⟩, h4⟩, h5⟩, h6⟩, h7⟩, h8⟩ := h
+  have hsp : splice T ((T2.drop e.start.bytes).take (e.new_end.bytes - e.start.bytes)) e.start.bytes e.old_end.bytes = T2 :=
+    h5.symm
+  have hlen : ((T2.drop e.start.bytes).take (e.new_end.bytes - e.start.bytes)).length = e.new_end.bytes - e.start.bytes := by
+    simp only [List.length_take, List.length_drop]; omega
+  refine ⟨⟨h1, h2, ?_, ?_, ?_⟩, hsp⟩
+  · rw [lenS_zero_eq_take]; exact h6
+  · rw [lenS_zero_eq_take]; exact h7
+  · rw [hsp, hlen, lenS_zero_eq_take, show e.start.bytes + (e.new_end.bytes - e.start.bytes) = e.new_end.bytes by omega]
+    exact h8
+
+-- non-vacuity: the text "ab\ncd", a two-leaf tree over it (second leaf has the newline as padding),
+-- and the change "replace b by x\ny" with its row/column: hypotheses hold, and the result is as stated.
+private def exText : List Nat := [97, 98, 10, 99, 100]
+private def ndl (p z : Length) : NodeData := { (default : NodeData) with padding := p, size := z }
+private def exTreeP : Tree :=
+  .mk (ndl ⟨0, ⟨0, 0⟩⟩ ⟨5, ⟨1, 2⟩⟩) [.mk (ndl ⟨0, ⟨0, 0⟩⟩ ⟨2, ⟨0, 2⟩⟩) [], .mk (ndl ⟨1, ⟨1, 0⟩⟩ ⟨2, ⟨0, 2⟩⟩) []]
+private def exEditP : Edit := { start := ⟨1, ⟨0, 1⟩⟩, old_end := ⟨2, ⟨0, 2⟩⟩, new_end := ⟨4, ⟨1, 1⟩⟩ }
+example : WFb exTreeP := wfbCheck_sound _ (by decide)
+example : Cons exText exTreeP 0 := consCheck_sound _ _ _ (by decide)
+example : EditOK exText [120, 10, 121] 1 2 exEditP := ⟨by decide, by decide, by decide, by decide, by decide⟩
+example : splice exText [120, 10, 121] 1 2 = [97, 120, 10, 121, 10, 99, 100] := by decide
+example : pts exTreeP length_zero =
+    [(⟨0, ⟨0, 0⟩⟩, ⟨5, ⟨1, 2⟩⟩), (⟨0, ⟨0, 0⟩⟩, ⟨2, ⟨0, 2⟩⟩), (⟨3, ⟨1, 0⟩⟩, ⟨5, ⟨1, 2⟩⟩)] := by decide
+example : pts (editTree exTreeP exEditP) length_zero =
+    [(⟨0, ⟨0, 0⟩⟩, ⟨7, ⟨2, 2⟩⟩), (⟨0, ⟨0, 0⟩⟩, ⟨4, ⟨1, 1⟩⟩), (⟨5, ⟨2, 0⟩⟩, ⟨7, ⟨2, 2⟩⟩)] := by decide
+example : editOKCheck exText [97, 120, 10, 121, 10, 99, 100] exEditP = true := by decide
+example : HistOK exText [⟨exEditP, [120, 10, 121], 1, 2⟩] :=
+  ⟨⟨by decide, by decide, by decide, by decide, by decide⟩, trivial⟩
 
 end TsVerif.C10
